@@ -192,6 +192,37 @@ def one(M, rec, rng, g, desc, kind, symvals):
             same(rec, "turn rates re-assigned in place on an already stepped network vs a fresh network", kind, desc, r_new, r_old, ctx)
         except Exception as e:
             rec.violation(f"{PROP}:re-assigned turn rates:{kind}: cannot be stepped ({type(e).__name__})", dict(ctx, exception=repr(e)[:300]))
+    # (g) a few closed-loop steps in which the mappings the library returned (`link.next_states`) are fed
+    #     straight back as that link's initial conditions: same trajectory whatever the construction order
+    if kind == "numpy":
+        NE, CE = drive.engines(M)
+
+        def loop(built_):
+            ic = drive.np_init(built_, vals, "vec1")
+            for _k in range(3):
+                built_.net.step(init_conditions=ic, engine=NE(), positive_next_speed=True, **drive.step_pars(pars))
+                nxt_ = drive.read_next(built_)
+                v2 = {k_: dict(d_) for k_, d_ in vals.items()}
+                for eid_, d_ in nxt_.items():
+                    for nm_, x_ in d_.items():
+                        v2[eid_][nm_] = x_ if nm_ != "w" else max(0.0, x_)
+                ic = drive.np_init(built_, v2, "vec1")
+                for lid_, el_ in built_.links.items():
+                    if set(el_.next_states) == set(ic[el_]):
+                        ic[el_] = el_.next_states
+            return drive.read_next(built_)
+
+        try:
+            d2 = copy.deepcopy(desc)
+            for grp_ in ("nodes", "links", "origins", "dests"):
+                rng.shuffle(d2[grp_])
+            ra = loop(D.build(M, desc))
+            rb = loop(D.build(M, d2, D.random_ops(d2, rng)))
+            rec.count("relation_closed_loop_feedback")
+            same(rec, "3 closed-loop steps feeding back the returned next_states mappings, other construction order", kind, desc, ra, rb, ctx)
+        except Exception as e:
+            rec.count("closed_loop_feedback_failed")
+            rec.seen("failed", repr(e)[:100])
     # (f) the same network written with other call forms: every constructor / construction call with its
     #     arguments by keyword vs positionally in the documented order
     for form, frng in (("all arguments by keyword", _FixedK(0)), ("all arguments positional (documented order)", _FixedK(99))):
